@@ -55,13 +55,15 @@ class Worker:
             pass
 
 
-def run_pool(obs, jobs):
+def run_pool(obs, jobs, known=()):
     """Run obligations on a pool of serve-mode workers; yields (ob, result)."""
     pending = list(obs)
     pending.reverse()
     workers = []
     results = []
     maxserve = int(os.environ.get('VERIF_WORKER_RECYCLE', '60'))
+    stop_after = int(os.environ.get('VERIF_STOP_AFTER', '8'))
+    nrefuted = 0
     while pending or any(w.job for w in workers):
         # fill
         for w in list(workers):
@@ -94,6 +96,15 @@ def run_pool(obs, jobs):
                 except Exception:
                     res = {'status': 'HARNESS_ERROR', 'error': 'bad worker output: ' + line[:200]}
                 results.append((w.job, res))
+                if res.get('status') == 'REFUTED' and not w.job.get('twin') and \
+                        not any(re.search(f['obligation'], w.job.get('name', '')) for f in known):
+                    nrefuted += 1
+                    if nrefuted >= stop_after and pending:
+                        # enough counterexamples to report: do not spend the rest of the budget on a tree that is already refuted
+                        log('stopping early: %d obligations refuted, %d not run' % (nrefuted, len(pending)))
+                        for ob_ in pending:
+                            results.append((ob_, {'status': 'NOT_RUN', 'paths': 0, 'reached_end': 0}))
+                        pending = []
                 w.job = None
                 w.served += 1
             elif now - w.started > w.job['timeout'] * 2.5 + 60:
@@ -225,7 +236,7 @@ def main():
             t['name'] = o['name'] + '#twin'
             twins.append(t)
     log('[%s/%s] %d obligations (+%d reachability twins) on %d workers' % (pid, tier, len(obs), len(twins), jobs))
-    results = run_pool(twins + order, jobs)
+    results = run_pool(twins + order, jobs, load_known(pid))
     if os.environ.get('VERIF_DUMP'):
         os.makedirs(os.path.join(ROOT, '.scratch'), exist_ok=True)
         json.dump(results, open(os.path.join(ROOT, '.scratch', pid + ('-seed' if os.environ.get('VERIF_REPO') else '') + '-results.json'), 'w'))
@@ -311,6 +322,8 @@ def main():
                 violations.append((ob['name'], reason, rp, args))
         elif status == 'HARNESS_ERROR':
             herrs.append('%s: %s' % (ob['name'], res.get('error', '')[-800:]))
+        elif status == 'NOT_RUN':
+            cov['not_run_after_violations'] = cov.get('not_run_after_violations', 0) + 1
         else:
             cov['inconclusive'] += 1
             inconclusive.append(ob['name'])
